@@ -50,7 +50,7 @@ def gen_cases(ctx, n):
         if "case" in c and "twin" in c["case"]:
             out.append(c["case"])
     shapes = ["chain", "fan_in", "fan_out", "cycle", "antisym", "nonadjacent", "offset_single", "depends_on_offset", "numeric_dep_analytic",
-              "analytic_dep_numeric", "higher_order", "mixed_nonlinear", "offset_in_group", "isolated"]
+              "analytic_dep_numeric", "higher_order", "mixed_nonlinear", "offset_in_group", "isolated", "chain_to_nonlinear", "chain_from_offset", "chain_to_nonlinear"]
     i = 0
     while len(out) < n:
         kind = ["perm", "perm", "rename", "formulation"][i % 4]
